@@ -44,7 +44,7 @@ func init() {
 		Real:        []string{"app.LinkApplication (CreateBlock, PreRunBlock, CheckBlock incl. verifyTxsOnProcess workers, CommitBlock, election path)", "state processor/transition", "state.StateDB trie and kv mode (real kvState.wal file)", "vm/evm, vm/wasm", "mempool incl. tx cache (txHeap) and AddTx", "blockchain.BlockStore", "utxo.UtxoStore", "txmgr", "consensus.BlockExecutor.ApplyBlock", "p2p.ConManager (socket-free) as sink of the election callback", "secp256k1"},
 		Stub:        []string{"consensus state machine (commit signed by the harness with the validator keys)", "storage engine (SimDB)", "libxcrypto (pure-Go model: group arithmetic real, range proof transparent)", "fee-distribution WASM contract not deployed"},
 		Assumptions: []string{"runtime.NumCPU() is fixed per machine (recorded in the sample): the worker count (NumCPU+3)/4 is not varied, the order of the workers at the cache is", "process-wide singletons (BlockBalanceRecordsInstance, BlacklistInstance, UTXO rate getter) are shared by the replicas of a run; the rate getter is re-registered before each replica acts, balance records are off as in node start-up, no blacklist transactions are generated"},
-		QuickRuns:   1400, QuickBudget: 55 * time.Second, ThoroughRuns: 20000, ThoroughBudget: 15 * time.Minute,
+		QuickRuns:   1400, QuickBudget: 55 * time.Second, ThoroughRuns: 36000, ThoroughBudget: 15 * time.Minute,
 		RunsPerProcess: 8, RunTimeout: 300 * time.Second,
 		Run: run,
 	})
@@ -714,6 +714,9 @@ func (w *world) block(n int, viaPool bool) bool {
 	failed := 0
 	for i, it := range committed {
 		c.Probe("kind/" + string(it.Kind))
+		if it.Token != txgen.Native {
+			c.Probe("token-flavour/" + string(it.Kind))
+		}
 		if it.Kind != txgen.KMultiSign && receipts[i].Status != types.ReceiptStatusSuccessful {
 			failed++
 		}
